@@ -203,6 +203,37 @@ fn big_pipeline(r: &mut StdRng, server: &Arc<Server<Cat>>, addr: SocketAddr, pro
         m.extend_from_slice(&[0, *[1u8, 16].choose(r).unwrap(), 0, 1]);
         m
     }).collect();
+    pipeline(reqs, 0, server, addr, provider, out);
+    // requests of the largest sizes the two-octet length prefix can announce (an OPT record with a padding option)
+    let maxreqs: Vec<Vec<u8>> = [65533usize, 65534, 65535].iter().map(|&total| {
+        let mut m = vec![0xab, (total & 0xff) as u8, 0, 0, 0, 1, 0, 0, 0, 0, 0, 0];
+        m.extend_from_slice(&w("www.example.test."));
+        m.extend_from_slice(&[0, 1, 0, 1]);
+        let padlen = total - m.len() - 11 - 4;
+        let mut opt = vec![0, 12, (padlen >> 8) as u8, (padlen & 0xff) as u8];
+        opt.extend(std::iter::repeat(0u8).take(padlen));
+        push_additional(&mut m, &opt_rr(1232, 0, &[0], &opt));
+        assert_eq!(m.len(), total);
+        m
+    }).collect();
+    pipeline(maxreqs, 0, server, addr, provider, out);
+    // a client that does not read for a while (small receive buffer): forty answers of 12 KiB pile up in the server's
+    // send path, its socket stops taking whole responses at once
+    // (forty answers = 480 KB stall the connection for as long as the kernel's send buffer has not grown; making a
+    // non-blocking socket refuse part of a write takes more than its 4 MiB send buffer limit, and a 5 MB stream in one
+    // trace record is more than TLC's JSON reader takes: tried, rc 75 - see DESIGN.md, gap C30-r3m1)
+    let stalled: Vec<Vec<u8>> = (0..40u16).map(|i| {
+        let mut m = vec![(i >> 8) as u8, i as u8, 0, 0, 0, 1, 0, 0, 0, 0, 0, 0];
+        m.extend_from_slice(&w("big.example.test."));
+        m.extend_from_slice(&[0, 16, 0, 1]);
+        m
+    }).collect();
+    pipeline(stalled, 1500, server, addr, provider, out);
+}
+
+/// One connection, all requests written by one thread while another reads (after `stall_ms`, with a small receive
+/// buffer when stalling); every request has a response.
+fn pipeline(reqs: Vec<Vec<u8>>, stall_ms: u64, server: &Arc<Server<Cat>>, addr: SocketAddr, provider: &str, out: &mut Out) {
     let expected: Vec<Vec<u8>> = reqs.iter().map(|q| direct(server, q, Transport::Tcp)).collect();
     let mut stream_out: Vec<u8> = Vec::new();
     for q in &reqs {
@@ -212,8 +243,14 @@ fn big_pipeline(r: &mut StdRng, server: &Arc<Server<Cat>>, addr: SocketAddr, pro
     let want: usize = expected.iter().map(|e| e.len() + 2).sum();
     let sock = TcpStream::connect(addr).unwrap();
     sock.set_nodelay(true).unwrap();
+    if stall_ms > 0 {
+        use std::os::unix::io::AsRawFd;
+        let sz: libc::c_int = 4096;
+        unsafe { libc::setsockopt(sock.as_raw_fd(), libc::SOL_SOCKET, libc::SO_RCVBUF, &sz as *const _ as *const libc::c_void, std::mem::size_of::<libc::c_int>() as libc::socklen_t); }
+    }
     let mut wsock = sock.try_clone().unwrap();
     let writer = std::thread::spawn(move || wsock.write_all(&stream_out).is_ok());
+    if stall_ms > 0 { std::thread::sleep(Duration::from_millis(stall_ms)); }
     let mut rsock = sock;
     rsock.set_read_timeout(Some(Duration::from_millis(15000))).unwrap();
     let mut got: Vec<u8> = Vec::new();
